@@ -18,7 +18,8 @@ KeyTypes == {"x25519", "ssh-ed25519", "ssh-rsa", "scrypt"}
 KeyArgs == {"r", "R", "ei"}            \* encryption: -r RECIPIENT | -R FILE | -e -i IDENTITYFILE
 Inputs == {"file", "pipe", "missing"}
 Damages == {"none", "hdrbit", "mac", "paybit_first", "paybit_last", "trunc", "wrongkey", "garbage"}
-Outs == {"stdout", "new", "existing", "missingdir", "underfile", "same_input", "same_keyfile", "devfull_o", "devfull_stdout", "limit"}
+\* "devnull": -o /dev/null (a character device that takes everything); "fifo": -o names a FIFO somebody reads from
+Outs == {"stdout", "new", "existing", "missingdir", "underfile", "same_input", "same_keyfile", "devfull_o", "devfull_stdout", "limit", "devnull", "fifo"}
 Spellings == {"same", "dot", "dotdot", "abs", "dslash"}
 Limits == {"zero", "one", "mid", "lastbutone", "exact"}     \* where a size-limited destination stops accepting bytes
 FlagErrs == {"none", "e_and_d", "a_with_d", "p_with_d", "r_with_d", "i_without_e", "no_recipient", "p_with_r", "two_inputs"}
@@ -80,13 +81,16 @@ SameFile == phase = "samefile" /\ IF cmd.out \in {"same_input", "same_keyfile"} 
 OpenIn == phase = "openin" /\ IF cmd.input = "missing" THEN Fail ELSE Go("header")
 \* decrypt: keys are read and the header is checked before the output is touched; encrypt: recipients are parsed
 Header == phase = "header" /\ IF cmd.op = "dec" /\ ~HeaderOK THEN Fail ELSE Go("open")
+\* does anything have to be written at all?  (decrypting an empty plaintext writes nothing: even a destination that takes
+\* nothing has then received the complete result; encryption always writes a header)
+NeedsBytes == ~(cmd.op = "dec" /\ cmd.size = 0)
 \* the first write creates (or truncates) the output; decrypt forces that write even for an empty plaintext
 Open == /\ phase = "open"
         /\ IF ~DestCreate THEN Fail
            ELSE /\ outState' = (IF cmd.out \in {"stdout", "devfull_stdout"} THEN outState ELSE "partial")
                 /\ phase' = "copy" /\ UNCHANGED <<cmd, exit>>
 Copy == /\ phase = "copy"
-        /\ IF DestTakes = "all" /\ CopyReach = "all"
+        /\ IF (DestTakes = "all" \/ ~NeedsBytes) /\ CopyReach = "all"
            THEN /\ outState' = "complete" /\ phase' = "close" /\ UNCHANGED <<cmd, exit>>
            ELSE /\ exit' = 1 /\ phase' = "done" /\ UNCHANGED <<cmd, outState>>    \* what was written stays: a prefix
 Close == phase = "close" /\ exit' = 0 /\ phase' = "done" /\ UNCHANGED <<cmd, outState>>
